@@ -144,6 +144,13 @@ fn stored_one_call<const N: usize, const OUT: usize, const KMAX: usize, const LB
                 "Finish made no progress towards the end of the stream");
         }
     }
+    // C07 at level 0: room for one block header plus everything supplied is room for the whole stream, and the call that
+    // writes it reports it done (deflate() turns FinishDone into StreamEnd, anything else into Ok) — also when the block
+    // fills the buffer to the last byte
+    if matches!(flush, DeflateFlush::Finish) && avail_out as usize >= total + 5 {
+        assert!(matches!(bs, BlockState::FinishDone), "a Finish call with room for the complete stored stream completes it");
+    }
+    kani::cover!(matches!(bs, BlockState::FinishDone) && avail_out as usize == total + 5 && total > 0);
     kani::cover!(matches!(bs, BlockState::FinishDone) && n as usize == N);
     kani::cover!(matches!(bs, BlockState::FinishStarted));
     kani::cover!(matches!(bs, BlockState::BlockDone) && n > 0);
